@@ -385,6 +385,39 @@ UndeclaredUse(q, tenv, sig) ==
           \/ UndeclaredUse(q.ch[3], TBind(TBind(tenv, q.a, TypeOf(q.ch[2], tenv, sig)), q.b, TypeOf(q.ch[1], tenv, sig).e), sig)
      ELSE \E i \in DOMAIN q.ch : UndeclaredUse(q.ch[i], tenv, sig)
 
+RECURSIVE OccursV(_, _)
+\* free occurrences of variable x in q
+OccursV(q, x) ==
+  IF q.k = "Var" THEN (IF q.a = x THEN 1 ELSE 0)
+  ELSE LET RECURSIVE Sm(_)
+           Sm(i) == IF i > Len(q.ch) THEN 0
+                    ELSE (IF (q.k \in {"Select", "SelectMany", "Where"} /\ i = 2 /\ q.a = x)
+                             \/ (q.k = "Aggregate" /\ i = 3 /\ x \in {q.a, q.b})
+                          THEN 0 ELSE OccursV(q.ch[i], x)) + Sm(i + 1)
+       IN Sm(1)
+
+\* the same, restricted to calls whose value is used by the rest of the query (u): a call in dead
+\* code (elements of a sequence that is only counted, a Select body replaced by a constant later)
+\* may never be translated, so no warning can be demanded for it
+RECURSIVE LiveUndeclared(_, _, _, _)
+LiveUndeclared(q, tenv, sig, u) ==
+  \/ /\ u /\ q.k = "Meth"
+     /\ LET r == TypeOf(q.ch[1], tenv, sig) IN r.t = "obj" /\ (r.c \o "." \o q.a) \notin sig.declared
+  \/ IF q.k = "Select"
+     THEN \/ LiveUndeclared(q.ch[1], tenv, sig, u /\ OccursV(q.ch[2], q.a) > 0)
+          \/ LiveUndeclared(q.ch[2], TBind(tenv, q.a, TypeOf(q.ch[1], tenv, sig).e), sig, u)
+     ELSE IF q.k = "Where"
+     THEN \/ LiveUndeclared(q.ch[1], tenv, sig, u \/ OccursV(q.ch[2], q.a) > 0)
+          \/ LiveUndeclared(q.ch[2], TBind(tenv, q.a, TypeOf(q.ch[1], tenv, sig).e), sig, TRUE)
+     ELSE IF q.k = "SelectMany"
+     THEN \/ LiveUndeclared(q.ch[1], tenv, sig, OccursV(q.ch[2], q.a) > 0)
+          \/ LiveUndeclared(q.ch[2], TBind(tenv, q.a, TypeOf(q.ch[1], tenv, sig).e), sig, u)
+     ELSE IF q.k = "Count" THEN LiveUndeclared(q.ch[1], tenv, sig, FALSE)
+     ELSE IF q.k = "Aggregate"
+     THEN \/ LiveUndeclared(q.ch[1], tenv, sig, TRUE) \/ LiveUndeclared(q.ch[2], tenv, sig, TRUE)
+          \/ LiveUndeclared(q.ch[3], TBind(TBind(tenv, q.a, TypeOf(q.ch[2], tenv, sig)), q.b, TypeOf(q.ch[1], tenv, sig).e), sig, TRUE)
+     ELSE \E i \in DOMAIN q.ch : LiveUndeclared(q.ch[i], tenv, sig, TRUE)
+
 ----------------------------------------------------------------------------
 (* Output schema: what the booked tree must look like, from the final expression alone. *)
 RECURSIVE ColType(_)
